@@ -194,7 +194,7 @@ def gen_case(rng, pid, tier):
                     ops.append(['refinish', i])
             elif x < 0.35:
                 # a fault inside the clean-up (an `ipset` / unlink call fails), possibly twice, before the retry
-                ops.append(['cutfinish', i, rng.choice(['dns'] + [rng.randrange(0, 14)] * 4)])
+                ops.append(['cutfinish', i, rng.choice(['dns', 'late'] + [rng.randrange(0, 14)] * 4)])
                 if rng.random() < 0.3:
                     ops.append(['cutfinish', i, rng.choice(['dns'] + [rng.randrange(0, 14)] * 4)])
             elif x < 0.42 and conts[i]['mode'] == 'direct':
@@ -700,6 +700,13 @@ def _run_impl(case, root):
         env.rule_log = []
         env.net_get = []
         env.keep_alloc = keep
+        late = cut == 'late'
+        if late:
+            # a LATER step of the finish fails (the cgroup cannot be released yet: EBUSY): by then the network part
+            # is done - for the network this is a complete finish that happens to raise
+            cut = None
+            tm_env.svc_cgroup.make_client.return_value.delete.side_effect = OSError(errno.EBUSY, 'cgroup busy')
+            run.tags.add('late-fault')
         env.dns_fail = cut == 'dns'        # the resolver fails once while the passthrough hosts are looked up:
         if cut == 'dns':                   # nothing was removed yet, which is a cut before the first removal
             cut = 0
@@ -724,6 +731,9 @@ def _run_impl(case, root):
             env.keep_alloc = False
             env.cut = None
             env.dns_fail = False
+            tm_env.svc_cgroup.make_client.return_value.delete.side_effect = None
+        if late and raised == 'OSError:%d' % errno.EBUSY:
+            raised = None               # the injected failure itself
         after = snapshot()
         account(i, '_cleanup_network', before, after)
         t = track.get(i)
